@@ -549,6 +549,10 @@ def do_havoc(ip, st, case, env):
                     nv = ip.make(cs.fields[field], "%s.%s" % (cell.cls, field), st)
                 else:
                     nv = Opaque(ip.reg.new("%s.%s" % (cell.cls, field), "Unk"))     # a value nothing is known about
+            elif isinstance(cur, Ref) and getattr(st.heap.get(cur.cid), "kind", None) == "arith":
+                from .lib import copy_special
+                st.heap[cur.cid] = copy_special(st.heap[cur.cid], nextval=ip.reg.new("%s.%s$next" % (cell.cls, field), "Int"))
+                nv = cur
             elif isinstance(cur, Ref):
                 # the field may be rebound to a new object: fresh cell of the same shape
                 cs = ip.contracts.classes.get(cell.cls)
@@ -791,6 +795,11 @@ def _dict_forms():
     return FORMS
 
 
-SPEC_FORMS = {"old": _sf_old, "implies": _sf_implies, "iff": _sf_iff, "pulled": _sf_pulled, "content": _sf_content,
+def _sf_arith_next(ip, e, st):
+    """arith_next(it): the value the arithmetic-progression iterator would deliver next (ghost)"""
+    return Num(_iter_cell(ip, st, ip.ev1(e.args[0], st)).nextval)
+
+
+SPEC_FORMS = {"arith_next": _sf_arith_next, "old": _sf_old, "implies": _sf_implies, "iff": _sf_iff, "pulled": _sf_pulled, "content": _sf_content,
               "rest": _sf_rest}
 SPEC_FORMS.update(_dict_forms())
